@@ -68,6 +68,8 @@ where
 
     #[inline]
     fn index(&self, index: Self::Index) -> Self::ReadItem<'_> {
+        #[cfg(feature = "verif-hooks")]
+        crate::verif::str_probe(self.inner.index(index));
         // SAFETY: All Push implementations only accept correct utf8 data
         unsafe { std::str::from_utf8_unchecked(self.inner.index(index)) }
     }
